@@ -31,6 +31,7 @@ func Exec(sc sim.Script) *sim.Outcome {
 	}
 	if w.v == nil {
 		w.step = len(s.Ops)
+		w.verify()
 		w.final()
 	}
 	o := &sim.Outcome{V: w.v, Stats: w.stats, Digest: w.log.Digest()}
@@ -63,6 +64,15 @@ func (w *world) checkWeight(after string) {
 }
 
 func (w *world) apply(op WOp) {
+	if w.partial != nil && op.K != "mupd" && op.K != "mdel" {
+		return // after the export only mirrored updates follow
+	}
+	if w.c10 != nil && op.K != "verify" {
+		if len(op.K) > 2 && op.K[:2] == "t." {
+			w.tamper(op)
+		}
+		return // the prover is not updated after the proof was made
+	}
 	switch op.K {
 	case "upd":
 		if len(op.V) == 0 {
@@ -94,6 +104,14 @@ func (w *world) apply(op WOp) {
 		w.saveRoot()
 	case "rollback":
 		w.rollback(op)
+	case "prove":
+		w.prove(op)
+	case "verify":
+		w.verify()
+	case "export":
+		w.export(op)
+	case "mupd", "mdel":
+		w.mirror(op)
 	}
 }
 
